@@ -582,3 +582,40 @@ func VerifC09_MapKey() {
 		vrt.Assert(vrt.PEq(want, out, &vrt.PSchema{Sub: map[int]*vrt.PSchema{1: {}}}, 3), "C09.mapkey.equals-denoted-message")
 	}
 }
+
+func init() { vrt.Register("VerifC09_Depth", VerifC09_Depth) }
+
+// VerifC09_Depth: a document nested DEPTH levels against the recursive message R{R r=1; int32 v=2}: the
+// converter either converts it (output well-formed, DEPTH length prefixes) or reports its depth limit as an
+// error - it never panics (the engine's panic monitor is the obligation here).
+func VerifC09_Depth() {
+	depth := vrt.Param("DEPTH")
+	r := proto.VerifNewMessage("R")
+	proto.VerifAddField(r, 1, "r", "r", r, false)
+	proto.VerifAddField(r, 2, "v", "v", proto.VerifBasic(proto.INT32), false)
+	proto.VerifBuild(r)
+	leaf := int64(vrt.U8() & 0x7f)
+	doc := jO().add("v", jI(leaf))
+	for i := 0; i < depth; i++ {
+		doc = jO().add("r", doc)
+	}
+	out, err := verifConvert(r, doc, conv.Options{})
+	vrt.Reach("done")
+	if err != nil {
+		vrt.Reach("depth-error")
+		return
+	}
+	vrt.Reach("converted")
+	// walk the nesting with the independent reader
+	b := out
+	for i := 0; i < depth; i++ {
+		fs, ok := vrt.PFields(b)
+		vrt.Assert(ok && len(fs) == 1 && fs[0].Num == 1 && fs[0].Wire == vrt.PBytesT, "C09.depth.nesting")
+		if !ok || len(fs) != 1 {
+			return
+		}
+		b = b[fs[0].PayStart:fs[0].End]
+	}
+	fs, ok := vrt.PFields(b)
+	vrt.Assert(ok && len(fs) == 1 && fs[0].Num == 2 && fs[0].Val == uint64(leaf), "C09.depth.leaf")
+}
